@@ -474,6 +474,15 @@ func (fsm *fsm) tryReceiveOutgoingConn() (outgoingConn, bool) {
 	}
 }
 
+// closeCollisionLoser ends the connection that lost the collision resolution:
+// RFC 4271 8.2.2 (OpenCollisionDump) sends a NOTIFICATION with a Cease,
+// RFC 4486 4 gives the subcode.
+func (fsm *fsm) closeCollisionLoser(conn net.Conn) {
+	m := bgp.NewBGPNotificationMessage(bgp.BGP_ERROR_CEASE, bgp.BGP_ERROR_SUB_CONNECTION_COLLISION_RESOLUTION, nil)
+	// sendNotification closes the connection
+	_ = fsm.sendNotification(conn, m)
+}
+
 // resolveCollision resolves connection collision according to RFC 4271 Section 6.8
 // and RFC 6286 Section 2.3.
 // Returns true if active connection should be used, false if passive connection should be used.
@@ -1587,7 +1596,7 @@ func (h *fsmHandler) opensent(ctx context.Context) (bgp.FSMState, *fsmStateReaso
 				if isDominant {
 					// close the incoming connection
 					fsm.logger.Debug("collision detected: dominant on active side, close the incoming connection")
-					fsm.conn.Close()
+					fsm.closeCollisionLoser(fsm.conn)
 					fsm.conn = outConn.conn
 					fsm.lock.Lock()
 					fsm.recvOpen = outConn.open
@@ -1595,7 +1604,7 @@ func (h *fsmHandler) opensent(ctx context.Context) (bgp.FSMState, *fsmStateReaso
 				} else {
 					// close the outgoing connection
 					fsm.logger.Debug("collision detected: dominant on passive side, close the outgoing connection")
-					outConn.conn.Close()
+					fsm.closeCollisionLoser(outConn.conn)
 				}
 			}
 
@@ -1632,11 +1641,11 @@ func (h *fsmHandler) opensent(ctx context.Context) (bgp.FSMState, *fsmStateReaso
 					if isDominant {
 						// close the incoming connection
 						fsm.logger.Debug("collision detected: dominant on active side, close the incoming connection")
-						incomingConn.Close()
+						fsm.closeCollisionLoser(incomingConn)
 					} else {
 						// close the outgoing connection
 						fsm.logger.Debug("collision detected: dominant on passive side, close the outgoing connection")
-						result.conn.Close()
+						fsm.closeCollisionLoser(result.conn)
 						fsm.conn = incomingConn
 						fsm.lock.Lock()
 						fsm.recvOpen = e.MsgData.(*bgp.BGPMessage)
@@ -1654,7 +1663,7 @@ func (h *fsmHandler) opensent(ctx context.Context) (bgp.FSMState, *fsmStateReaso
 				// is followed from here on, the one on which the OPEN exchange is complete;
 				// the other one must not be left open and unread (its reader is what the
 				// deferred clean-up of this state waits for).
-				incomingConn.Close()
+				fsm.closeCollisionLoser(incomingConn)
 			}
 			b, _ := bgp.NewBGPKeepAliveMessage().Serialize()
 			fsm.conn.SetWriteDeadline(time.Now().Add(time.Second))
